@@ -437,7 +437,14 @@ class CopyFilter(CopySuite):
     def nontrivial(self, op, impl, model):
         return bool(op["args"].get("include") or op["args"].get("exclude"))
 
+    def features(self, op, impl, model):
+        return super().features(op, impl, model) + ["canonical_source_listing=%s" % model.get("src_canon")]
+
     def extra_checks(self, op, impl, model, notes):
+        if model.get("src_canon") is False:
+            # premise of C16.filtered_walk_reports_copier_selection, evaluated on the snapshot of the source tree
+            notes.append("the source listing is not canonical for the walk's ancestor test (C16W.canonB = false)")
+            return False
         if model.get("res") == "ok" and model.get("naive_eq") is False and model.get("cmp") is not False:
             notes.append("C16: the copied set (= filtered walk) differs from the naive reference filter of C10")
             return False
